@@ -786,6 +786,16 @@ def oracle_session(obs, msgs):
         fam = family(msgs[-1] if msgs else b'', exc) if exc is not None else 'no-exception'
         return f'c05:session-wedged-{fam}', \
             'after the hostile bytes the probe request is not answered and the transport is still open'
+    # "no byte sequence from the peer can crash ... message processing; no other exception type
+    # escapes": message processing must not END with an exception because of what the peer sent -
+    # also when the transport notices and drops the connection afterwards (a session that closes
+    # the connection on purpose does so by calling close(); its message task then ends normally)
+    exc = obs.get('task_exc')
+    if exc is not None:
+        fam = family(msgs[-1] if msgs else b'', exc)
+        return f'c05:session-crashed-{fam}', \
+            f'{type(exc).__name__} escaped the session\'s message processing (the task died; ' \
+            f'probe answered: {obs["answered"]}, transport closing: {obs["closing"]})'
     return None
 
 
@@ -1101,35 +1111,41 @@ def run(ctx):
     cases = [(pn, setup_for(pn, st), m) for m in odd for pn in cc.PROTO_NAMES for st in STATES]
     evaluate_conn(ctx, res, cases, 'odd-ids')
     res['scopes']['odd_id_messages'] = {'messages': len(odd), 'cases': len(cases)}
-    big = resource_family(ctx.deep)
-    states = STATES if ctx.deep else ('mixed',)
+    # three depths: quick / drift (quick tier after a fingerprint drift or a broken obligation: the
+    # generated families grow, the structured ones stay, so that the run stays within ~90 s) /
+    # thorough
+    full = ctx.tier == 'thorough'
+    drift = bool(ctx.deep) and not full
+    big = resource_family(full)
+    states = STATES if full else ('mixed',)
     cases = [(pn, setup_for(pn, st), m) for m in big for pn in cc.PROTO_NAMES for st in states]
     evaluate_conn(ctx, res, cases, 'resource-limits')
     res['scopes']['resource_limit_messages'] = {'messages': len(big), 'cases': len(cases)}
     # (c) seeded generated
-    n = 150000 if ctx.deep else 7000
+    n = 150000 if full else 25000 if drift else 7000
     evaluate_conn(ctx, res, gen_conn_cases(rng, n), 'generated')
     res['scopes']['generated_conn'] = n
     # (d) session level
-    scases = late_family(ctx.deep)
+    scases = late_family(full)
     evaluate_sessions(ctx, res, scases, 'late-response')
     res['scopes']['session_late_response_cases'] = len(scases)
-    lcases = long_message_family(ctx.deep)
+    lcases = long_message_family(full)
     evaluate_sessions(ctx, res, lcases, 'long-messages')
     res['scopes']['session_long_message_cases'] = len(lcases)
     small_big = [BIG[k](d) for k in ('deep-list', 'deep-id-response', 'digits-id', 'digits-bare', 'deep-unclosed')
-                 for d in ((1000, 5000, 100000) if not ctx.deep else BIG_SIZES)]
+                 for d in ((1000, 5000, 100000) if not full else BIG_SIZES)]
     pool = odd + small_big * 3
-    hcases = history_family(rng, 6000 if ctx.deep else 250, odd + VALID)
+    hcases = history_family(rng, 6000 if full else 900 if drift else 250, odd + VALID)
     evaluate_sessions(ctx, res, hcases, 'history')
     res['scopes']['session_history_cases'] = len(hcases)
-    ns = 12000 if ctx.deep else 400
+    ns = 12000 if full else 1500 if drift else 400
     gcases = [(pn, setup_for(pn, 'mixed'), [m], None) for m in small_big for pn in ('v2', 'v1')]
     gcases += gen_session_cases(rng, ns, pool)
     evaluate_sessions(ctx, res, gcases, 'session')
     res['scopes']['session_cases'] = len(gcases)
     for c in gcases[-2:]:
         res.sample({'proto': c[0], 'setup': c[1], 'msgs': [m[:80].decode('latin-1') for m in c[2]]})
+    res['scopes']['depth'] = 'thorough' if full else 'drift' if drift else 'quick'
     return res.finish(RULE, exhaustive=True)
 
 
